@@ -53,7 +53,8 @@ MODELLED_NOT_VERIFIED = [
     "(exact comparison on dyadic inputs; means, normalised values and NJ branch lengths within 1e-9)",
     "C14: NJ consistency (a Q-minimal pair of a metric with the strict four-point condition is a cherry) is proved for every number of labels "
     "(minQ_cherry_all, by Theory/C14Cherry.lean), hence nj_realises / nj_inverts_tree / frac_nj_realises: NJ returns a tree with exactly the input "
-    "path lengths for every additive input with positive internal edges. There is no uniqueness theorem for additive trees, so the last step of "
+    "path lengths for every additive input with positive internal edges, and every edge of the source tree is metrically visible in the result with its full "
+    "length (tree_edge_separates, nj_result_separates_source_edges). The converse half of the split characterisation is not proved, so there is no uniqueness theorem for additive trees and the last step of "
     "the NJ half of clause (d) — from 'the same path lengths' to 'the same unrooted topology and edge lengths' — is tested (split sets with lengths "
     "of result and generating tree, from-scratch walk), not proved. The UPGMA half is proved including topology (upgma_recovers_tree). The source "
     "trees of nj_inverts_tree / upgma_recovers_tree are binary trees of the result type NT; for the library's tree type T the composition pdm -> upgma is "
@@ -88,8 +89,12 @@ EXPLANATION = ("Theorems (Props/C14.lean), for every tree and every number type 
                "Tie A: gen_njQ, gen_njNewDist, gen_njJoin_d, gen_njJoin_x, gen_njLengths, gen_njContinue, gen_pick_strict, gen_upNewDist, gen_upJoin_sub, gen_upJoin_h "
                "(model formulas = kernels regenerated from nj_tree / upgma_tree). nj_run_states, nj_states_inv, up_run_states: the states listed by the ops "
                "njtrace / uptrace are the states of njRun / upRun and satisfy the row-sum invariant. "
-               "Still partial by name: nj_recovers_tree_partial, upgma_recovers_tree_partial (one-step lemmas, superseded). Missing: uniqueness of the tree "
-               "realising an additive metric (topology of the NJ result is tested, not proved).")
+               "Wave 3: tree_edge_separates / tree_edge_separates_strict / tree_root_edge_separates (every edge of a tree with non-negative lengths separates the "
+               "leaves below it from the leaves beyond it in the path lengths, d(a,a')+d(b,b')+2e <= d(a,b)+d(a',b'): the 'only if' half of the split characterisation of a "
+               "tree metric) and nj_result_separates_source_edges (in the tree NJ returns every edge of the source tree is metrically visible with its full length). "
+               "Still partial by name: nj_recovers_tree_partial, upgma_recovers_tree_partial (one-step lemmas, superseded). Missing: the 'if' half of the split "
+               "characterisation (a bipartition separated in the path lengths is an edge of the tree), hence uniqueness of the tree realising an additive metric "
+               "(topology of the NJ result is tested, not proved), and the pdm -> NJ composition on the library's tree type T.")
 
 TOL = 1e-9
 
